@@ -216,7 +216,7 @@ Proof. intro H. unfold wrap_caps. rewrite (wrap_words _ caps [] [] H); reflexivi
 (* Part 3: the rounds of a configuration without SASL *)
 Definition quiet (o : outev) : Prop :=
   match o with StoreSts _ _ => True | GReq _ _ _ => True | GEnd _ _ _ => True | _ => False end.
-Definition core (s : st) := (fsm s, req s, ack s, nak s).
+Definition core (s : st) := (fsm s, req s, ack s, nak s, snext s, authed s, dec s, scur s).
 
 (* the phases between rounds: waiting for the welcome burst / for the answers to CAP REQ *)
 Definition PhE (s : st) (b : list outev) : Prop :=
@@ -362,7 +362,9 @@ Proof.
   destruct (addCapabilities c (words caps) s) as [[s1 o1] e1] eqn:Eac.
   destruct Hac as [Hab|[Hc [He Hq]]]; cbn [routs rstate rexn fst snd] in *.
   - left. apply abort_andthen. exact Hab.
-  - subst e1. unfold core in Hc. inversion Hc as [[Hf1 Hr1 Ha1 Hn1]]. rewrite Hf, Hr, Ha, Hn in *.
+  - subst e1. unfold core in Hc.
+    assert (Hf1 : fsm s1 = INIT_CAP) by congruence. assert (Hr1 : req s1 = []) by congruence.
+    assert (Ha1 : ack s1 = []) by congruence. assert (Hn1 : nak s1 = []) by congruence.
     apply Q3_after; [exact Hq|].
     rewrite Hf1. change (N.eqb INIT_CAP SHUTTING_DOWN) with false. cbv iota.
     unfold expect. rewrite Hf1, ls_expected, andthen_ret.
@@ -653,14 +655,3 @@ Example liveness_witnesses :
   connected_in cfg_nosasl (strategy (Srv false [] false) []) 1 = true.
 Proof. vm_compute. repeat split. Qed.
 
-(* what the pinned code gets wrong (finding C08.F25): sasl.required and the server fails the only mechanism:
-   tryNextSaslMechanism only logs; the bot sits in INIT_SASL, nothing was dropped, and the conformant
-   server has nothing left to answer -- for ever (the game does not move any more) *)
-Definition cfg_required1 : cfg :=
-  Cfg (s_sasl :: s_batch :: []) true [s_plain] [[65;65;65;65]] [] None false false true [104] 3.
-Example liveness_required_stuck :
-  let sigma := strategy srv_all [0;0;0;0;0;1] in       (* ACK the request, then 904 for PLAIN *)
-  let g := game cfg_required1 sigma 3 in
-  fsm (fst g) = INIT_SASL /\ existsb (existsb is_abort) (snd g) = false /\ sigma (snd g) = [] /\
-  game cfg_required1 sigma 7 = (fst g, [] :: [] :: [] :: [] :: snd g).
-Proof. vm_compute. repeat split. Qed.
